@@ -173,7 +173,7 @@ func runCase(ld *Loaded, c Case, known map[string]bool, timeoutMs int, defSolver
 	ex := &Exec{tb: NewTB(), solver: solver, prog: ld.prog, pkg: ld.pkg, sizes: types.SizesFor("gc", "amd64"),
 		fninfo: map[*ssa.Function]*FnInfo{}, globals: map[*ssa.Global]int{}, Kunwind: 64, Kalloc: 4096, Kgrow: 64, MaxDepth: 200,
 		knownOK: known, reached: map[string]bool{}, reachModel: map[string][]uint64{}, funcsSeen: map[string]bool{}, stubsSeen: map[string]bool{},
-		harness: c.Harness, unwound: map[string]int{}, feasCache: map[int]string{}}
+		harness: c.Harness, unwound: map[string]int{}, feasCache: map[int]string{}, tightCache: map[[2]int]int{}}
 	if v, ok := c.Opts["unwind"]; ok {
 		ex.Kunwind = v
 	}
